@@ -654,6 +654,20 @@ func TestC14(t *testing.T) {
 				c.Top2 = append(c.Top2, c14Piece{Target: rapid.SampledFrom(from).Draw(t, "top2target"), Style: style()}, genText(t, "top2"))
 			}
 		}
+		if rapid.IntRange(0, 3).Draw(t, "forloop-var") == 0 {
+			// a variable that happens to be called forloop (drawn last, so the rest of the case is what it was
+			// before this option existed): the top template assigns it and every file prints it - inside the
+			// top template's loop the name means the loop's record, in both spellings of the template
+			c.Top = append([]c14Piece{{Text: "{% assign forloop = \"mine\" %}"}}, c.Top...)
+			for i := range c.Files {
+				if c.Files[i].Disk != nil && !c.Files[i].EmptyDisk {
+					c.Files[i].Disk = append(c.Files[i].Disk, c14Piece{Text: "[{{ forloop }}]"})
+				}
+				if c.Files[i].Cache != nil {
+					c.Files[i].Cache = append(c.Files[i].Cache, c14Piece{Text: "[{{ forloop }}]"})
+				}
+			}
+		}
 		if v := g.Run(c); v != nil {
 			t.Fatalf("%s", v.Message)
 		}
